@@ -1,0 +1,91 @@
+//go:build verif
+
+package replication
+
+// Contract for QUERY_EVENT decoding (property C16): database, SQL text and the session character set, whatever
+// other status variables precede it.
+
+import (
+	"github.com/Breeze0806/gobinlog/internal/vspec"
+)
+
+// specQScan walks the status-variable block from pos, as documented for Query_log_event: codes in increasing order,
+// Q_FLAGS2 4 bytes, Q_SQL_MODE 8, Q_CATALOG 1+n+1 (NUL terminated), Q_AUTO_INCREMENT 4, Q_CHARSET 6,
+// Q_CATALOG_NZ 1+n; any other code ends the part this decoder knows. Result: where the payload of the last
+// Q_CHARSET_CODE starts (cur when there is none), or -2 when a variable does not fit into the block.
+func specQScan(vars []byte, pos int, cur int) int {
+	if pos < 0 || pos >= len(vars) {
+		return cur
+	}
+	switch vars[pos] {
+	case QFlags2Code, QAutoIncrement:
+		return specQScan(vars, pos+5, cur)
+	case QSQLModeCode:
+		return specQScan(vars, pos+9, cur)
+	case QCatalog:
+		if pos+2 > len(vars) {
+			return -2
+		}
+		return specQScan(vars, pos+3+int(vars[pos+1]), cur)
+	case QCatalogNZCode:
+		if pos+2 > len(vars) {
+			return -2
+		}
+		return specQScan(vars, pos+2+int(vars[pos+1]), cur)
+	case QCharsetCode:
+		if pos+7 > len(vars) {
+			return -2
+		}
+		return specQScan(vars, pos+7, pos+1)
+	}
+	return cur
+}
+
+// Ghost: where the payload of the character-set variable decoded so far starts (-1: none yet).
+var vcQCur int
+
+func vc_hook_entry_binlogEvent_Query(ev binlogEvent, f BinlogFormat) { vcQCur = -1 }
+
+// end of an iteration of the scan: a Q_CHARSET_CODE variable has just been decoded iff the code was 4
+func vc_hook_loopstep_binlogEvent_Query_1(code byte, pos int) {
+	if code == QCharsetCode {
+		vcQCur = pos - 6
+	}
+}
+
+func specQCharsetIs(c *Charset, vars []byte, at int) bool {
+	if at < 0 {
+		return c == nil
+	}
+	return c != nil && at+6 <= len(vars) &&
+		c.Client == int32(specLE16(vars, at)) && c.Conn == int32(specLE16(vars, at+2)) && c.Server == int32(specLE16(vars, at+4))
+}
+
+func vc_binlogEvent_Query_requires(ev binlogEvent, f BinlogFormat) bool {
+	return specValidFormat(f) && len(ev) >= int(f.HeaderLength)+13
+}
+
+func vc_binlogEvent_Query_loop1_inv(pos int, vars []byte, query Query, data []byte, dbPos int, dbLen int, sqlPos int) bool {
+	return pos >= 0 && vcQCur >= -1 && vcQCur < len(vars) && specQCharsetIs(query.Charset, vars, vcQCur) &&
+		specQScan(vars, 0, -1) == specQScan(vars, pos, vcQCur) &&
+		// the scan leaves the two strings alone
+		vspec.EqStr(query.Database, data[dbPos:dbPos+dbLen]) && vspec.EqStr(query.SQL, data[sqlPos:])
+}
+
+func vc_binlogEvent_Query_ensures_body(ev binlogEvent, f BinlogFormat, query Query, err error) bool {
+	data := ev[int(f.HeaderLength):]
+	dbLen := int(data[8])
+	varsLen := int(specLE16(data, 11))
+	dbPos := 13 + varsLen
+	sqlPos := dbPos + dbLen + 1
+	if sqlPos > len(data) {
+		return err != nil
+	}
+	vars := data[13 : 13+varsLen]
+	cs := specQScan(vars, 0, -1)
+	if cs == -2 {
+		return err != nil
+	}
+	return err == nil && vspec.EqStr(query.Database, data[dbPos:dbPos+dbLen]) && vspec.EqStr(query.SQL, data[sqlPos:]) &&
+		specQCharsetIs(query.Charset, vars, cs)
+}
